@@ -96,6 +96,13 @@ def check(case):
             d = snap0(gg)
             d["version"] = (gg.version, gg._version_guess, tuple(str(x) for x in gg._line_queue), len(gg.lines))
             return d
+    elif version == "spelled":
+        lines = list(ids)
+        try:
+            g = gfapy.Gfa(lines, vlevel=vlevel)
+        except gfapy.Error:
+            return dict(key=(version, tuple(ids), vlevel), nontrivial=False, failures=[])        # (a spelling refused at this level: subject of C04)
+        snap = state.snapshot
     else:
         lines = universe.lines_of(version, ids)
         g = gfapy.Gfa(lines, vlevel=vlevel)
@@ -129,11 +136,16 @@ def check(case):
                               case=dict(version=version, lines=lines, vlevel=vlevel, op=name)))
         after = snap(g)
         if after != before:
-            fails.append(dict(signature="C10:state-changed-by:%s.%s%s" % (who, opname, ":vlevel0" if vlevel == 0 else ""), what=harness.short("; ".join(state.snap_diff(before, after)), 400),
+            fails.append(dict(signature="C10:state-changed-by:%s.%s%s" % (who, opname, (":vlevel0" if vlevel == 0 else "") + (":noncanonical-spelling" if version == "spelled" else "")), what=harness.short("; ".join(state.snap_diff(before, after)), 400),
                               case=dict(version=version, lines=lines, vlevel=vlevel, op=name),
                               reproducer="import gfapy\ng = gfapy.Gfa(%r, vlevel=%d)\nprint(str(g))\n# read-only operation: %s %s\n" % (lines, vlevel, who, name)))
             before = after
     return dict(key=(version, tuple(ids), vlevel), nontrivial=nops > 10, failures=fails, sample=dict(lines=lines, vlevel=vlevel, read_only_calls=nops))
+
+
+# valid tags and overlaps in a spelling that is not the one gfapy writes (spaces in JSON, an array subtype wider than needed, leading zeros)
+SPELLED = [["S\tA\t*\txx:J:{\"a\" :  1}"], ["S\tA\t*\txx:B:i,1,2"], ["S\tA\t*\txx:f:1.50"], ["S\tA\t*\txx:i:004"], ["S\tA\t*\txx:H:0a"],
+           ["S\tA\t*", "S\tB\t*", "L\tA\t+\tB\t+\t01M2I"], ["S\tA\t8\t*\txx:J:[1,2]"], ["H\txx:J:[1,2]", "S\tA\t*"]]
 
 
 def cases(tier, seed):
@@ -150,6 +162,9 @@ def cases(tier, seed):
         for ids in docs:
             for vlevel in (0, 1, 3):
                 out.append((version, ids, vlevel, rng.randrange(10**6)))
+    for lines in SPELLED:
+        for vlevel in (0, 1, 3):
+            out.append(("spelled", tuple(lines), vlevel, rng.randrange(10**6)))
     for lines in PENDING:
         for vlevel in (0, 1, 3):
             for k in range(3):
@@ -161,7 +176,7 @@ if __name__ == "__main__":
     tier, seed = harness.args()
     cs = cases(tier, seed)
     res = harness.run(cs, check,
-                      rule="catalogue Gfas at vlevel 0/1/3; every read-only call of the list in bounded/c10.py (Gfa queries, per line: write, field reads, validation, clone/eq/diff, edge and alignment "
+                      rule="catalogue Gfas, Gfas with lines kept aside, and Gfas whose tags / overlaps are valid but not spelled as gfapy writes them, at vlevel 0/1/3; every read-only call of the list in bounded/c10.py (Gfa queries, per line: write, field reads, validation, clone/eq/diff, edge and alignment "
                            "queries incl. complement/equivalence/compatibility against every other link, neighbourhood, topology, path and set resolution) is made twice in a seeded random order; "
                            "after each call the full-state snapshot must be unchanged and the two answers equal. one evaluation = one Gfa state with all its calls",
                       bound="documents <=%d primary lines" % (2 if tier == "quick" else 3), exhaustive=False)
